@@ -809,14 +809,18 @@ func c04r4(c *core.Ctx) {
 				continue
 			}
 			okWriter := cn(f) == spec.ctor
-			if !okWriter && spec.typ == tSetupCtrl {
+			if !okWriter {
 				// ... or by the handler of the start request, with a freshly created session: a start begins a new exchange, nothing
-				// negotiated before it is needed afterwards (and the challenge must be fresh: C02-R5)
-				if mo := buildStepModel(p, "hap/pair", "SetupServerController", tSetupCtrl); mo != nil {
-					if rsVal, _, rsOK := resetState(p, "SetupServerController", tSetupCtrl); rsOK {
+				// negotiated before it is needed afterwards (and the challenge / the ephemeral key must be fresh: C02-R5, C03-R3)
+				ctrlName, sessCtor := "SetupServerController", "NewSetupServerSession"
+				if spec.typ == tVerifyCtrl {
+					ctrlName, sessCtor = "VerifyServerController", "NewVerifySession"
+				}
+				if mo := buildStepModel(p, "hap/pair", ctrlName, spec.typ); mo != nil {
+					if rsVal, _, rsOK := resetState(p, ctrlName, spec.typ); rsOK {
 						for _, h := range mo.handlers {
 							if h == f && mo.guardOK[h] && mo.guard[h] == rsVal && core.AnySource(st.Val, func(sv ssa.Value) bool {
-								return core.CallResult(sv, 0, func(ci ssa.Instruction) bool { return core.IsCall(ci, mod+"/hap/pair.NewSetupServerSession") }) != nil
+								return core.CallResult(sv, 0, func(ci ssa.Instruction) bool { return core.IsCall(ci, mod+"/hap/pair."+sessCtor) }) != nil
 							}) {
 								okWriter = true
 							}
@@ -824,7 +828,7 @@ func c04r4(c *core.Ctx) {
 					}
 				}
 			}
-			c.Check(okWriter, "write:"+core.Rel(spec.typ)+".session@"+fname(f), st.Pos(), "the session object is set by the constructor (pair-setup: or afresh by the handler of a start request)",
+			c.Check(okWriter, "write:"+core.Rel(spec.typ)+".session@"+fname(f), st.Pos(), "the session object is set by the constructor, or afresh by the handler of a start request",
 				"the controller's session object is replaced in "+fname(f)+": keys negotiated in this exchange (the shared key the endpoint reads after the finish step) are lost")
 		}
 	}
